@@ -275,6 +275,52 @@ def e2e(ctx, res):
             res.violate("e2e-values", {"db": [[list(o), v] for o, v in db], "oids": oids, "form": form, "version": version, "level": level}, want, obs["result"], "multiget result differs from the values the agent sent", {"kind": "codec", "what": "e2e-values", "form": form, "level": level})
 
 
+def unit_msgs(ctx, res, reqs, impls):
+    """whole community messages -> what the operation gets: the real `V2CMPM.decode(...)` followed by
+    `.value` against `Glue.msgOfBytes` + `Ops.mpmDecode` + `Ops.forcePdu` (driver op `ber.msg.recv`)"""
+    from puresnmp.credentials import V2C
+    from puresnmp_plugins.mpm.v2c import V2CMPM
+
+    rng = ctx.rng
+    for i in range(ctx.budget(200, 5000)):
+        nvb = rng.choice([0, 1, 2, 3, 5])
+        vbs = [([1, 3, 6, 1, 2, 1, rng.randint(0, 300), rng.randint(0, 2**32 - 1)], rng.choice(O.ALL_VALUES + [["noSuchObject"], ["noSuchInstance"], ["endOfMibView"]])) for _ in range(nvb)]
+        rid = rng.choice([0, 1, -1, 2**31 - 1, 2**40, rng.randrange(2**31)])
+        es = rng.choice([0, 0, 0, 0, 2, 5])
+        ei = rng.choice([0, 1, nvb])
+        form = FORMS[i % len(FORMS)]
+        tag = rng.choice([0xA2, 0xA2, 0xA8])
+        version = rng.choice([1, 1, 1, 1, 0, 3])
+        community = "".join(chr(rng.randrange(33, 127)) for _ in range(rng.choice([0, 6, 127, 128])))
+        sent_comm = community if rng.random() < 0.85 else community + "x"
+        shape = rng.choice(["ok"] * 6 + ["two-items", "four-items", "binding-1", "binding-3", "version-str"])
+        pdu = B.enc_pdu(tag, rid, es, ei, vbs, form)
+        if shape == "binding-1" and vbs:
+            pdu = B.tlv(tag, B.enc_int(rid, form) + B.enc_int(es, form) + B.enc_int(ei, form) + B.tlv(0x30, B.tlv(0x30, B.enc_oid(vbs[0][0], form), form), form), form)
+        elif shape == "binding-3" and vbs:
+            pdu = B.tlv(tag, B.enc_int(rid, form) + B.enc_int(es, form) + B.enc_int(ei, form) + B.tlv(0x30, B.tlv(0x30, B.enc_oid(vbs[0][0], form) + B.enc_int(1, form) + B.enc_int(2, form), form), form), form)
+        v = B.enc_int(version, form) if shape != "version-str" else B.tlv(0x04, b"\x01", form)
+        items = v + B.tlv(0x04, sent_comm.encode(), form) + pdu
+        if shape == "two-items":
+            items = v + pdu
+        elif shape == "four-items":
+            items = items + B.enc_int(7, form)
+        data = B.tlv(0x30, items, form)
+        case = {"msg": data.hex() if len(data) < 400 else f"<{len(data)} octets>", "shape": shape, "form": form, "version": version, "es": es, "community_ok": sent_comm == community}
+
+        def go(data=data, community=community):
+            p = V2CMPM(None, {}).decode(data, V2C(community))
+            c = p.value
+            return {"cls": type(p).__name__, "rid": c.request_id, "es": c.error_status, "ei": c.error_index,
+                    "vbs": [[[int(x) for x in str(vb.oid).split(".")], RA.canon_value(vb.value)] for vb in c.varbinds]}
+
+        r = BL.guarded(go, 2.0)
+        res.count(f"unit-msg:{shape if shape == 'ok' else 'malformed'}")
+        res.count("unit-msg:accepted" if r[0] == "ok" else "unit-msg:refused")
+        reqs.append({"op": "ber.msg.recv", "data": data.hex(), "community": community.encode().hex(), "fuel": len(data) + 16, "depth": 12})
+        impls.append(("unit-msg", case, r[1] if r[0] == "ok" else None))
+
+
 def second_arc(ctx, res):
     """OBJECT IDENTIFIER values below joint-iso-itu-t(2) with a second arc of 40 or more"""
     for val in ([2, 39, 1], [2, 40, 1], [2, 47, 3], [2, 48, 3], [2, 999, 3], [2, 2**32 - 1]):
@@ -295,6 +341,7 @@ def run(ctx):
     unit_primitives(ctx, res, reqs, impls)
     unit_values(ctx, res, reqs, impls)
     unit_pdus(ctx, res, reqs, impls)
+    unit_msgs(ctx, res, reqs, impls)
     reencode_v3(ctx, res)
     e2e(ctx, res)
     if ctx.driver_ok:
